@@ -273,6 +273,101 @@ def unelif_raising(tree):
     return tree
 
 
+def inline_local_defs(tree):
+    """A nested `def f(a, ...): [docstring] return <expr>` (no decorators, defaults, annotations that matter, *args) whose name is read
+    exactly once afterwards in the enclosing function, as a plain value (`key=f`, `iter(f, ())`), is the lambda `lambda a, ...: <expr>`
+    written at that place: both are closures over the same variables, evaluated when called."""
+    for fn in [n for n in ast.walk(tree) if isinstance(n, ast.FunctionDef)]:
+        changed = True
+        while changed:
+            changed = False
+            for k, d in enumerate(fn.body):
+                if not isinstance(d, ast.FunctionDef) or d.decorator_list:
+                    continue
+                a = d.args
+                if a.vararg or a.kwarg or a.kwonlyargs or a.defaults or a.kw_defaults or getattr(a, 'posonlyargs', []):
+                    continue
+                body = [s_ for s_ in d.body if not (isinstance(s_, ast.Expr) and isinstance(s_.value, ast.Constant) and isinstance(s_.value.value, str))]
+                if len(body) != 1 or not isinstance(body[0], ast.Return) or body[0].value is None:
+                    continue
+                expr = body[0].value
+                if any(isinstance(n, (ast.Yield, ast.YieldFrom, ast.Await, ast.Lambda, ast.FunctionDef)) for n in ast.walk(expr)):
+                    continue
+                if any(isinstance(n, ast.Name) and n.id == d.name for n in ast.walk(expr)):
+                    continue                                  # recursive
+                uses = [n for st in fn.body[:k] + fn.body[k + 1:] for n in ast.walk(st) if isinstance(n, ast.Name) and n.id == d.name]
+                later = [n for st in fn.body[k + 1:] for n in ast.walk(st) if isinstance(n, ast.Name) and n.id == d.name]
+                if len(uses) != 1 or len(later) != 1 or not isinstance(later[0].ctx, ast.Load):
+                    continue
+                lam = ast.Lambda(args=ast.arguments(posonlyargs=[], args=[ast.arg(arg=x.arg) for x in a.args], vararg=None, kwonlyargs=[],
+                                                    kw_defaults=[], kwarg=None, defaults=[]), body=expr)
+                target = later[0]
+
+                class Sub(ast.NodeTransformer):
+                    def visit_Name(self, node):
+                        return ast.copy_location(lam, node) if node is target else node
+                for i_ in range(k + 1, len(fn.body)):
+                    fn.body[i_] = Sub().visit(fn.body[i_])
+                del fn.body[k]
+                ast.fix_missing_locations(fn)
+                changed = True
+                break
+    return tree
+
+
+def zeros_like_of_zeros(tree):
+    """`b = np.zeros_like(a)` where `a` was bound in the same block, by the one statement `a = np.zeros(<shape>)` whose shape only reads
+    attributes / names / constants, and nothing re-binds `a` in between, allocates what `np.zeros(<shape>)` allocates."""
+    def pure(e):
+        return all(isinstance(n, (ast.Tuple, ast.Name, ast.Attribute, ast.Constant, ast.Load, ast.expr_context)) for n in ast.walk(e))
+
+    def is_np(call, name):
+        return (isinstance(call, ast.Call) and isinstance(call.func, ast.Attribute) and call.func.attr == name
+                and isinstance(call.func.value, ast.Name) and call.func.value.id == 'np')
+    for fn in [n for n in ast.walk(tree) if isinstance(n, ast.FunctionDef)]:
+        made = {}
+        for st in fn.body:
+            if isinstance(st, ast.Assign) and len(st.targets) == 1 and isinstance(st.targets[0], ast.Name):
+                v = st.value
+                if is_np(v, 'zeros_like') and len(v.args) == 1 and not v.keywords and isinstance(v.args[0], ast.Name) and v.args[0].id in made:
+                    st.value = ast.copy_location(ast.Call(func=v.func.__class__(value=v.func.value, attr='zeros', ctx=ast.Load()),
+                                                          args=[copy.deepcopy(made[v.args[0].id])], keywords=[]), v)
+                    ast.fix_missing_locations(st)
+                    v = st.value
+                if is_np(v, 'zeros') and len(v.args) == 1 and not v.keywords and pure(v.args[0]):
+                    made[st.targets[0].id] = v.args[0]
+                    continue
+            for n in ast.walk(st):                     # anything else that may re-bind a tracked name, or a name its shape reads
+                if isinstance(n, ast.Name) and isinstance(n.ctx, (ast.Store, ast.Del)):
+                    made.pop(n.id, None)
+                    for k_ in [k_ for k_, e in made.items() if any(isinstance(m, ast.Name) and m.id == n.id for m in ast.walk(e))]:
+                        made.pop(k_)
+    return tree
+
+
+def merge_tail_returns(tree):
+    """`if c: A; return X` followed (to the end of the function) by `B; return X` with the same expression X -- and no `else` -- is
+    `if c: A else: B` followed by `return X`: the early exit and the fall-through return the same thing."""
+    for fn in [n for n in ast.walk(tree) if isinstance(n, ast.FunctionDef)]:
+        body = fn.body
+        if len(body) < 3 or not isinstance(body[-1], ast.Return) or body[-1].value is None:
+            continue
+        last = ast.dump(body[-1].value)
+        for k in range(len(body) - 2, -1, -1):
+            st = body[k]
+            if isinstance(st, ast.If) and not st.orelse and len(st.body) >= 2 and isinstance(st.body[-1], ast.Return) \
+                    and st.body[-1].value is not None and ast.dump(st.body[-1].value) == last:
+                rest = body[k + 1:-1]
+                if not rest or any(isinstance(n, ast.Return) for r in rest + st.body[:-1] for n in ast.walk(r)):
+                    break
+                st.body = st.body[:-1]
+                st.orelse = rest
+                fn.body = body[:k + 1] + [body[-1]]
+                ast.fix_missing_locations(fn)
+                break
+    return tree
+
+
 def normalise(tree):
     """The behaviour-preserving rewrites shared by the translators that read optimizer code (T2, its state-replay instrumentation, the
     onlooker translator, t_treepop): each maps a spelling onto the one the translators know; none changes what the code does."""
@@ -281,6 +376,9 @@ def normalise(tree):
     inline_len_locals(tree)
     unproduct(tree)
     inline_ref_aliases(tree)
+    inline_local_defs(tree)
+    zeros_like_of_zeros(tree)
+    merge_tail_returns(tree)
     return tree
 
 
